@@ -143,6 +143,90 @@ func TestVerifRpcGuards(t *testing.T) {
 	}
 }
 
+// The crash interceptor on its own (a server without a timeout): every kind of panic of the
+// handler becomes an Internal error for the caller.
+func TestVerifRpcCrashOnly(t *testing.T) {
+	defer vrt.WriteReport()
+	logx.Disable()
+	if !vrt.Shard(90) {
+		return
+	}
+	info := &grpc.UnaryServerInfo{FullMethod: "/svc/m"}
+	for _, kind := range []string{"string", "error", "runtime", "nil-error"} {
+		kind := kind
+		vrt.Explore(vrt.Options{Name: "guards/rpc/crash-only/panic=" + kind, Bound: 0}, func(r *vrt.Run) {
+			var escaped any
+			var resp interface{}
+			var err error
+			func() {
+				defer func() { escaped = recover() }()
+				resp, err = UnaryCrashInterceptor(context.Background(), "req", info, func(ctx context.Context, req interface{}) (interface{}, error) {
+					switch kind {
+					case "error":
+						panic(errors.New("boom"))
+					case "runtime":
+						var m map[string]int
+						m["x"] = 1
+					case "nil-error":
+						var e error
+						panic(e)
+					}
+					panic("boom")
+				})
+			}()
+			r.Outcome("%v|%v", resp, status.Code(err))
+			if escaped != nil {
+				r.Failf("panic escaped the crash interceptor: %v", escaped)
+			}
+			if status.Code(err) != codes.Internal || resp != nil {
+				r.Failf("the handler panicked (%s) but the caller got (%v, %v), want an Internal error", kind, resp, err)
+			}
+		})
+	}
+}
+
+// The timeout interceptor on its own, nobody else moving the clock: a handler that panics at
+// once makes the call end at once with that panic - the caller is not kept waiting for the
+// deadline (virtual time only advances here when the caller itself is blocked).
+func TestVerifRpcTimeoutOnlyPanic(t *testing.T) {
+	defer vrt.WriteReport()
+	logx.Disable()
+	if !vrt.Shard(91) {
+		return
+	}
+	info := &grpc.UnaryServerInfo{FullMethod: "/svc/m"}
+	for _, kind := range []string{"string", "error", "nil-error"} {
+		kind := kind
+		vrt.Explore(vrt.Options{Name: "guards/rpc/timeout-only/panic=" + kind, Bound: 1, AutoAdvance: true}, func(r *vrt.Run) {
+			var escaped any
+			var err error
+			panicked := true
+			func() {
+				defer func() { escaped = recover() }()
+				_, err = UnaryTimeoutInterceptor(rpcTimeout)(context.Background(), "req", info, func(ctx context.Context, req interface{}) (interface{}, error) {
+					switch kind {
+					case "error":
+						panic(errors.New("boom"))
+					case "nil-error":
+						var e error
+						panic(e)
+					}
+					panic("boom")
+				})
+				panicked = false
+			}()
+			at := vrt.Elapsed()
+			r.Outcome("panicked=%v err=%v at=+%v", panicked, status.Code(err), at)
+			_ = escaped
+			if !panicked {
+				r.Failf("the handler panicked (%s) but the call returned normally with %v at +%v", kind, err, at)
+			} else if at >= rpcTimeout {
+				r.Failf("the handler panicked (%s) at once but the caller was kept waiting until +%v", kind, at)
+			}
+		})
+	}
+}
+
 // Requests do not influence each other: a quick call gets its own result while an earlier
 // call (possibly already timed out, its handler still running) is in progress, and two
 // concurrent calls both finish within their own deadline.
